@@ -225,15 +225,15 @@ type retRec struct {
 
 func (c *Ctx) callFunction(st *State, fn *ssa.Function, args []Value) (*State, Value) {
 	name := fn.String()
-	// harness API and intrinsics
-	if h, ok := c.lookupIntrinsic(fn); ok {
-		c.intrHit[name]++
-		return h(c, st, fn, args)
-	}
+	// environment stubs (redirect table) take precedence over intrinsics; then harness API and intrinsics
 	if tgt, ok := c.cfg.redirect(c, fn); ok {
 		c.stubsHit[name]++
 		fn = tgt
 		name = fn.String()
+	}
+	if h, ok := c.lookupIntrinsic(fn); ok {
+		c.intrHit[name]++
+		return h(c, st, fn, args)
 	}
 	if fn.Blocks == nil {
 		panic(engineErr("UNMODELLED external function " + name))
